@@ -740,8 +740,18 @@ fn cmd_c15_prf(args: &[String]) {
                         } else {
                             json!([])
                         };
+                        // the first 16-byte blocks of a byte-valued output (not of permutations): outputs under different
+                        // (key, counter) must be unrelated, in particular they never share an aligned cipher block
+                        let blk: Vec<String> = if tyj["k"] == "a" || tyj["k"] == "s" {
+                            v.access_bytes(|b| {
+                                Ok(b.chunks_exact(16).take(12).map(|c| c.iter().map(|x| format!("{:02x}", x)).collect::<String>()).collect())
+                            })
+                            .unwrap_or_default()
+                        } else {
+                            vec![]
+                        };
                         writeln!(out, "{}", json!({"kind":"out","key":ky[i],"ctr":ct[i],"ty":ty[i],"dg":digest(&v),
-                            "lay":layout(&v),"lastb":lb,"perm":perm,"bits":get_size_in_bits(t).unwrap()})).unwrap();
+                            "lay":layout(&v),"lastb":lb,"perm":perm,"bits":get_size_in_bits(t).unwrap(),"blk":blk})).unwrap();
                     }
                 }
                 other => dgs.push(res_of(&other).to_string()),
